@@ -2,6 +2,7 @@ import JominiModel.Model.TextDe
 import JominiModel.Spec.TextDoc
 import JominiModel.Proofs.TextDe
 import JominiModel.Proofs.TextDeStream
+import JominiModel.Proofs.TextDeTape
 /-
 C02 — Text deserialization returns the document's values on both parse paths.
 Only property theorems live here; helper lemmas are in `Proofs/TextDe*.lean`.
@@ -100,5 +101,39 @@ example :
     intro v hv
     simp only [List.mem_cons, List.not_mem_nil, or_false] at hv
     rcases hv with rfl | rfl <;> exact Fits.scalar rfl
+
+/- Full statement (growth): for every save-style document `d` and every root target type that requests
+its shape (with `Property` only in field position), `deTape enc ty (tapeOf d) = valueOf enc ty d`.
+Proved below for the FLAT fragment: every field value of `d` is a scalar and the target is a struct
+whose declared fields have scalar types (typed leaves, strings, `any`, enums, `ign`, under `Option` /
+`Property`); unknown, missing and duplicated fields included.  Nested containers, sequences and map
+targets on the tape path are covered by the correspondence runs (the `spec_doc` op compares
+`valueOf` / `tapeOf` with the real code) and the implementation-side oracles only. -/
+/-- The tape deserializer, run on the tape of a flat document, returns the document's value. -/
+theorem C02_tape_eq_spec_partial (enc : Enc) (fs : List (Bytes × Ty)) (d : Doc)
+    (hflat : FlatFields d) (hty : ∀ n t, (n, t) ∈ fs → Ty.isFieldScalarTy t = true) :
+    deTape enc (.st fs) (tapeOf d) = valueOf enc (.st fs) d :=
+  deTape_flat_struct enc fs d hflat hty
+
+example : FlatFields [([97], Op.gt, Node.leaf ⟨[49, 50], false⟩), ([98], Op.eq, Node.leaf ⟨[120], true⟩)] ∧
+    deTape .utf8 (.st [([97], .prop .i64), ([99], .opt .str)]) (tapeOf [([97], Op.gt, Node.leaf ⟨[49, 50], false⟩), ([98], Op.eq, Node.leaf ⟨[120], true⟩)])
+      = .ok (.st [([97], .prop .gt (.int 12)), ([99], .none)]) := by
+  refine ⟨?_, by rfl⟩
+  intro k o v hm
+  simp only [List.mem_cons, Prod.mk.injEq, List.not_mem_nil, or_false] at hm
+  rcases hm with ⟨_, _, rfl⟩ | ⟨_, _, rfl⟩ <;> exact ⟨_, rfl⟩
+
+/- Full statement (growth): `deTape enc ty (tapeOf d) = deStream enc ty (lexemes d)` for every save-style
+document and every shape-requesting root type.  Proved for the flat fragment of `C02_tape_eq_spec_partial`. -/
+/-- Both parse paths yield the same value (or the same error). -/
+theorem C02_paths_agree_partial (enc : Enc) (fs : List (Bytes × Ty)) (d : Doc)
+    (hflat : FlatFields d) (hty : ∀ n t, (n, t) ∈ fs → Ty.isFieldScalarTy t = true) :
+    deTape enc (.st fs) (tapeOf d) = deStream enc (.st fs) (lexemes d) := by
+  rw [deTape_flat_struct enc fs d hflat hty,
+    deStream_eq_valueOf enc (.st fs) d rfl (fits_flat_struct enc fs d hflat hty)]
+
+example : deTape .w1252 (.st [([97], .bool)]) (tapeOf [([97], Op.eq, Node.leaf ⟨[121, 101, 115], false⟩)]) = .ok (.st [([97], .bool true)]) ∧
+    deStream .w1252 (.st [([97], .bool)]) (lexemes [([97], Op.eq, Node.leaf ⟨[121, 101, 115], false⟩)]) = .ok (.st [([97], .bool true)]) := by
+  constructor <;> rfl
 
 end Jomini.Props.C02
